@@ -238,6 +238,9 @@ def run(chk, prog):
     A.require(len(af) == 1, "ElectricField: _axis_freq initialiser not found")
     rc = [x for x in A.walk(af[0]["expr"]) if x["k"] in ("CXXConstructExpr", "CXXTemporaryObjectExpr") and "Ruler" in (x.get("callee_class") or "")]
     ok = False
+    rc = [x for x in rc if len(x.get("args", [])) >= 3]
+    if not rc:
+        raise AnalysisBroken("ElectricField: the frequency axis is not built by Ruler(n, min, max, ...) in the initialiser (helper?): its range is not judged")
     if rc:
         rr = rc[-1]
         mn, mx = sc._try(rr["args"][1]), sc._try(rr["args"][2])
